@@ -7,15 +7,15 @@ from . import tokens as T
 from . import c19
 
 EXPLANATION = (
-    "NARROW: the central equivalence (prefix joined with postfix matches exactly what the glob matches), idempotence and "
-    "rebuild-equivalence quantify over all paths and are NOT decided.  Decided: (recompile) the postfix Glob is compiled "
+    "(law) on the expression catalogue (sa/rules/exhaust.py: every top-level sequence of up to two / three segments around one alternation or repetition whose sub-expressions have up to two segments, two branch tokens in one sequence, a branch nested in a repetition; built as the parser builds them, kept when the rule checker accepts them) - plus the same expressions behind a leading separator and the literal shapes of C11 - Tokenized::partition is evaluated (THIR) and the emitted programs of the original tree and of the postfix tree are compared as automata: a canonical path matches the original exactly when it is the prefix, a separator and a path the postfix matches (the path equal to the prefix itself is not compared: `a/*` does not match `a` although `*` matches the empty remainder); without a postfix the glob matches exactly the prefix; the postfix reports has_root = never; partitioning the postfix again gives an empty prefix and the same tree.  This decides the law for the shapes of the catalogue, not for all expressions; a deviation that disappears when the known loose encoding of a rooted tree wildcard in first position is replaced by the strict one is attributed to that finding.  For all inputs: (recompile) the postfix Glob is compiled "
     "from the partitioned tree (C19.pair); (unroot, bytes) Tokenized::partition is evaluated on abstract token lists with "
-    "concrete spans for every prefix length: the first remaining token is unrooted (a rooted tree wildcard loses its root "
-    "and the separator's byte), the bytes removed from the expression equal the amount subtracted from every remaining "
-    "span, so every remaining span still delimits the same text, and the returned prefix text is the one computed by "
-    "invariant_text_prefix; (prefix) invariant_text_prefix appends text only for text-invariant tokens and stops at the "
-    "last component boundary, over all invariance / boundary patterns of lists up to length 3 (4 in the thorough tier).")
-RULES = "C08.recompile (PROV), C08.unroot + C08.bytes (EFFECT), C08.prefix (TABLE)"
+    "concrete spans for every prefix length: the first remaining token is unrooted (a rooted tree wildcard loses its root and the separator's byte), "
+    "the bytes removed from the expression equal the amount subtracted from every remaining span, so every remaining span still delimits the same text, "
+    "and the returned prefix text is the one computed by invariant_text_prefix; (prefix) invariant_text_prefix appends text only for text-invariant "
+    "tokens and stops at the last component boundary, over all invariance / boundary patterns of lists up to length 3 (4 in the thorough tier).  Not "
+    "decided: that the postfix *displays* as the right suffix when flags precede it (`(?i)/**` is sliced as `?i)/**`, `123/(?i)456/c*` loses its "
+    "flag): the parser's spans of flags are outside the token tree.")
+RULES = "C08.law (TABLE on a catalogue: languages of glob, prefix and postfix), C08.recompile (PROV), C08.unroot + C08.bytes (EFFECT), C08.prefix (TABLE)"
 
 
 def tok(kind_leaf, start, length):
@@ -41,11 +41,12 @@ def run(ctx):
     F = ctx.facts()
     R = ctx.report
     R.assume("token spans are the parser's byte offsets of the token's text in the expression (C17)")
-    R.undecided("the equivalence over all canonical paths; idempotence; globs rooted through a repetition keep their root "
-                "in the postfix (`</a:1,>`: only a leaf can be unrooted), which these rules do not see")
+    R.undecided("the law outside the catalogue; the displayed postfix expression when flags precede the postfix")
     c19.rule_pair(F, R)
     rule_partition(F, R)
     rule_prefix(F, R, 3 if ctx.tier == "quick" else 4)
+    from . import exhaust
+    exhaust.report_query(F, R, "C08.law", ctx.tier, "partition", 10000, 1500)
 
 
 def rule_partition(F, R):
